@@ -94,7 +94,7 @@ def check_invariants(ctx, prog, pit, what):
 def check_export(ctx, prog, model, pit, summ, seed, what):
     xs = pitgen.example_inputs(prog, 2, seed + 9)
     with torch.no_grad():
-        y0 = model(*xs)
+        y0 = pitgen.out_tensor(model(*xs))
     try:
         exported = pit.export()
         exported.eval()
@@ -104,7 +104,7 @@ def check_export(ctx, prog, model, pit, summ, seed, what):
         return None
     try:
         with torch.no_grad():
-            y = exported(*xs)
+            y = pitgen.out_tensor(exported(*xs))
     except Exception as e:
         ctx.violation('exported-forward-crash', {'sig': type(e).__name__, 'exc': repr(e)[:300],
                                                  'what': what, 'features': prog['features'],
@@ -160,6 +160,11 @@ def run_case(case, ctx):
         return
     prog = pitgen.gen_valid_program(random.Random(case['prog_seed']), family=case['family'],
                                     opts={'p_fixed_stem': 0.15, 'allow_fixed': True})
+    # the same network returning its output as y, (y,), [y] or {'logits': y}
+    oc = [None, None, 'tuple1', None, 'list1', None, 'dict1', None][(case['prog_seed'] // 2) % 8]
+    if oc:
+        prog['out_container'] = oc
+        prog['features'] = sorted(set(prog['features']) | {'output-in-container'})
     try:
         model, pit, _ = pitlib.convert_pit(prog, case['seed'], fold_bn=case['fold'])
     except Exception as e:
